@@ -233,7 +233,7 @@ Lemma step_grow s E text a' c :
   had (s_users s) (aid a') c \/ grant s E text (aid a') c.
 Proof.
   cbn [step]. pose proof (effect_of_ok s E text) as Hok. pose proof (effect_of_grant s E text) as Hgr.
-  destruct (effect_of s E text) as [|a m|z|name pw addmask|ch ch'|h|h] eqn:De; cbn [apply_effect];
+  destruct (effect_of s E text) as [|a m|z|name pw addmask|ch ch'|h|h] eqn:De;
     intros Hin Hc; try (left; exists a'; auto; fail).
   - destruct Hok as [Ha _].
     assert (Hcore : forall x, aid x = aid a -> (caps x = caps (mutate a m)) -> C03.Model.smem c (caps x) = true ->
@@ -246,17 +246,19 @@ Proof.
     { intros x Hx Hsm. destruct (put_In _ _ _ Hx) as [K|K].
       - subst x. apply Hcore; [apply aid_mutate|reflexivity|exact Hsm].
       - left. exists x. auto. }
-    destruct m; cbn [store s_users] in Hin; try (apply H1; assumption).
-    match type of Hin with context[if ?b then _ else _] => destruct b end; cbn [with_users s_users store] in Hin;
-      [|apply H1; assumption].
-    destruct (put_In _ _ _ Hin) as [K|K]; [|apply H1; assumption].
-    subst a'. apply Hcore.
-    + rewrite !aid_mutate. reflexivity.
-    + rewrite !caps_mutate. reflexivity.
-    + exact Hc.
-  - cbn [with_users s_users] in Hin. unfold del in Hin. apply filter_In in Hin as [Hin _]. left. exists a'. auto.
-  - cbn [s_users] in Hin. destruct (put_In _ _ _ Hin) as [K|K]; [|left; exists a'; auto].
-    subst a'. exfalso. match type of Hc with context[if ?b then _ else _] => destruct b end; cbn in Hc; discriminate.
+    destruct (eset_users s E a m) as [K|[K|(h & Em & K)]]; rewrite K in Hin.
+    + apply H1; assumption.
+    + left. exists a'. auto.
+    + subst m. destruct (put_In _ _ _ Hin) as [K2|K2]; [|apply H1; assumption].
+      subst a'. apply Hcore.
+      * rewrite !aid_mutate. reflexivity.
+      * rewrite !caps_mutate. reflexivity.
+      * exact Hc.
+  - cbn [apply_effect with_users s_users] in Hin. unfold del in Hin. apply filter_In in Hin as [Hin _]. left. exists a'. auto.
+  - destruct (ereg_shape s E name pw addmask) as (_ & _ & [K|[K|[_ K]]]); rewrite K in Hin.
+    + unfold del in Hin. apply filter_In in Hin as [Hin _]. left. exists a'. auto.
+    + destruct (put_In _ _ _ Hin) as [K2|K2]; [|left; exists a'; auto]. subst a'. exfalso. cbn in Hc. discriminate.
+    + destruct (put_In _ _ _ Hin) as [K2|K2]; [|left; exists a'; auto]. subst a'. exfalso. cbn in Hc. discriminate.
 Qed.
 Transparent mutate.
 
@@ -268,19 +270,21 @@ Lemma step_new s E text a' :
   ((exists name pw addmask, effect_of s E text = ERegister name pw addmask) /\ caps a' = []).
 Proof.
   cbn [step]. pose proof (effect_of_ok s E text) as Hok.
-  destruct (effect_of s E text) as [|a m|z|name pw addmask|ch ch'|h|h] eqn:De; cbn [apply_effect];
+  destruct (effect_of s E text) as [|a m|z|name pw addmask|ch ch'|h|h] eqn:De;
     intros Hin; try (left; exists a'; auto; fail).
   - destruct Hok as [Ha _]. left.
     assert (H1 : forall x, In x (put (mutate a m) (s_users s)) -> exists a0, In a0 (s_users s) /\ aid a0 = aid x).
     { intros x Hx. destruct (put_In _ _ _ Hx) as [K|K]; [subst x; exists a; split; [exact Ha|symmetry; apply aid_mutate]|exists x; auto]. }
-    destruct m; cbn [store s_users] in Hin; try (apply H1; assumption).
-    match type of Hin with context[if ?b then _ else _] => destruct b end; cbn [with_users s_users store] in Hin;
-      [|apply H1; assumption].
-    destruct (put_In _ _ _ Hin) as [K|K]; [|apply H1; assumption].
-    subst a'. exists a. split; [exact Ha|]. rewrite !aid_mutate. reflexivity.
-  - cbn [with_users s_users] in Hin. unfold del in Hin. apply filter_In in Hin as [Hin _]. left. exists a'. auto.
-  - cbn [s_users] in Hin. destruct (put_In _ _ _ Hin) as [K|K]; [|left; exists a'; auto].
-    right. split; [eauto|]. subst a'. match goal with |- context[if ?b then _ else _] => destruct b end; reflexivity.
+    destruct (eset_users s E a m) as [K|[K|(h & Em & K)]]; rewrite K in Hin.
+    + apply H1; assumption.
+    + exists a'. auto.
+    + subst m. destruct (put_In _ _ _ Hin) as [K2|K2]; [|apply H1; assumption].
+      subst a'. exists a. split; [exact Ha|]. rewrite !aid_mutate. reflexivity.
+  - cbn [apply_effect with_users s_users] in Hin. unfold del in Hin. apply filter_In in Hin as [Hin _]. left. exists a'. auto.
+  - destruct (ereg_shape s E name pw addmask) as (_ & _ & [K|[K|[_ K]]]); rewrite K in Hin.
+    + unfold del in Hin. apply filter_In in Hin as [Hin _]. left. exists a'. auto.
+    + destruct (put_In _ _ _ Hin) as [K2|K2]; [|left; exists a'; auto]. right. split; [eauto|]. subst a'. reflexivity.
+    + destruct (put_In _ _ _ Hin) as [K2|K2]; [|left; exists a'; auto]. right. split; [eauto|]. subst a'. reflexivity.
 Qed.
 Transparent mutate.
 
